@@ -147,6 +147,17 @@ func init() {
 				}
 				return seg{"<% let q = 1 %>", ""}
 			case 9:
+				// loops over iterators: what an iteration wrote before break / continue is kept
+				switch e.Rng.Intn(5) {
+				case 0:
+					return seg{"<%= for (i) in range(1, 3) { %>[<%= i %><% if (i == 2) { %>stop<% break %><% } %>]<% } %>", "[1][2stop"}
+				case 1:
+					return seg{"<%= for (i) in until(3) { %>x<%= i %><% break %>y<% } %>", "x0"}
+				case 2:
+					return seg{"<%= for (i) in between(0, 4) { %>(<%= i %><% if (i == 2) { %>skip<% continue %><% } %>)<% } %>", "(1)(2skip(3)"}
+				case 3:
+					return seg{"<%= for (g) in groupBy(2, [1, 2, 3]) { %>{<%= for (x) in g { %><%= x %><% if (x == 1) { %>!<% break %><% } %><% } %>}<% } %>", "{1!}{3}"}
+				}
 				return seg{"<% n = n %>", ""}
 			case 10:
 				return seg{"<% s + \"x\" %>", ""}
